@@ -7,6 +7,7 @@ opts (all optional):
   fault: [step, phase] -> the observer raises InjectedFault there; plain: build with library classes;
   presim: number of earlier simulate() calls on the same object before the observed one;
   resume_from: k -> simulate(max_time=k) first, the observed run resumes it (state/log initialisation off, or restart_flags=(state, log));
+  post_insert: list -> insert_absence_time_list(list) after the run; reload: write/read JSON after the run and look at the loaded project;
   unit_time: passed to simulate(); backward: observe backward_simulate() instead (options due, rev).
 """
 import traceback
@@ -156,4 +157,25 @@ def run(spec, opts=None, model=None, call=None):
     finally:
         bootstrap.clear_observer()
         del S.PLACEMENT_LOG[:]
+    if ex.error is None and (opts.get("post_insert") or opts.get("reload")):
+        try:
+            if opts.get("post_insert"):
+                ex.m.project.insert_absence_time_list(list(opts["post_insert"]))
+            if opts.get("reload"):
+                import os
+                import tempfile
+
+                fd, path = tempfile.mkstemp(prefix="verif-reload-", suffix=".json")
+                os.close(fd)
+                try:
+                    ex.m.project.write_simple_json(path)
+                    from pDESy.model.base_project import BaseProject
+
+                    p2 = BaseProject()
+                    p2.read_simple_json(path)
+                    ex.m = S.adopt(p2)  # the log-based monitors now look at the loaded project
+                finally:
+                    os.unlink(path)
+        except Exception as e:
+            ex.error = "post: %s: %s" % (type(e).__name__, e)
     return ex
